@@ -159,6 +159,19 @@ def route_values(name, vecs, rs):
     tab = R.config_read('\n'.join(lines) + '\n')
     pots = {pt.speciesA: pt for pt in tab.potentials}
     out['as.NAME in [Pair]'] = [[ev(pots['S%d' % i].energy, r) for r in rs] for i in range(len(vecs))]
+    # the same file also defines the user's OWN form with the bare name (same arity): as.NAME still means the built-in
+    from atsim.potentials.config._common import ConfigurationException
+    k = len(vecs[0])
+    own = ['', '[Potential-Form]', '%s(r%s) = 4242.0 + r' % (name, ''.join(', q%d' % i for i in range(k))), 'other_%s(r) = %s(r%s)' % (name, name, ', 1.0' * k)]
+    try:
+        tab = R.config_read('\n'.join(lines + ['OWN-Q : %s %s' % (name, ' '.join(['1.0'] * k))] + own) + '\n')
+        pots = {pt.speciesA: pt for pt in tab.potentials}
+        if abs(pots['OWN'].energy(0.5) - 4242.5) > 1e-9:
+            out['own form %s'] = [[pots['OWN'].energy(0.5) + 1e99 for r in rs] for i in range(len(vecs))]      # the user's own form is not used for its own label
+        else:
+            out['as.NAME in [Pair] next to the user\'s own form NAME'] = [[ev(pots['S%d' % i].energy, r) for r in rs] for i in range(len(vecs))]
+    except ConfigurationException:
+        pass            # the label is reserved (e.g. sqrt is a function of the formula language): nothing to compare
     if name != 'buck4':
         lines = ['[Tabulation]', 'target : LAMMPS', 'nr : 3', 'cutoff : 1.0', '', '[Pair]']
         forms = ['[Potential-Form]']
